@@ -63,7 +63,7 @@ fn find_new_idxs(num_params: usize, cat_sizes: &[usize], cat_idxs: &[usize]) -> 
     // that remain constant
     let repeats = cat_idx.scan(0, |a, v| {
         let im = v + 1 - *a;
-        *a = v;
+        *a = v + 1;
         Some(im)
     });
 
